@@ -48,6 +48,8 @@ STACKS = {1: [], 2: ["lru"], 3: ["ver"], 4: ["snappy"], 5: ["lru", "ver"], 6: ["
           12: ["lru", "snappy", "ver"], 13: ["ver", "lru", "snappy"], 14: ["ver", "snappy", "lru"],
           15: ["snappy", "lru", "ver"], 16: ["snappy", "ver", "lru"], 17: ["lru", "lru"], 18: ["lru", "ver", "lru"]}
 
+CORE_ACTIONS = ("SetOp", "SetMultiOp", "AddOp", "GetOp", "DeleteOp", "Advance", "AdvanceOp", "PokeOp")
+VARIANT_ACTIONS = ("SetAsyncOp", "SetMulti1Op")
 PROPS = ["NeverWrong", "NeverAfterDelete", "NeverAfterDeadline", "NeverCorrupt", "ReadIsPeek", "NoAlias", "AddSemantics"]
 
 
@@ -125,54 +127,71 @@ def run(ctx):
                        "model values/keys/versions are mapped to fixed concrete byte strings by the driver",
                        "server name number m -> address string is strictly monotone w.r.t. natural order by construction"]
     ctx.exhaustive = True
+    # development aid: C19_PHASES=decide,cover,scripts,placement (default: all of them)
+    phases = set(os.environ.get("C19_PHASES", "decide,cover,scripts,placement").split(","))
+    scale = float(os.environ.get("C19_TIMEOUT_SCALE", "1"))
 
     # 1. the specification decides the property ------------------------------------------------------
-    decide = [("MC_quick_single.cfg", {}), ("MC_views.cfg", {"@@MAXOPS@@": 3, "@@CAPS@@": "{1}"})] if quick else \
-             [("MC_single.cfg", {}), ("MC_views.cfg", {"@@MAXOPS@@": 5, "@@CAPS@@": "{1, 2}"})]
-    for cfg, subst in decide:
-        r = ctx.tlc("cache", "CacheStack", cfg=cfg, subst=subst or None, workers=workers(), timeout=780 if not quick else 300,
+    decide = [("MC_quick_single.cfg", {}), ("MC_views.cfg", {"@@MAXOPS@@": 2, "@@CAPS@@": "{1}"})] if quick else \
+             [("MC_single.cfg", {}), ("MC_views.cfg", {"@@MAXOPS@@": 3, "@@CAPS@@": "{1, 2}"})]
+    for cfg, subst in (decide if "decide" in phases else []):
+        r = ctx.tlc("cache", "CacheStack", cfg=cfg, subst=subst or None, workers=workers(), timeout=(780 if not quick else 300) * scale,
                     deadlock=False, coverage=not quick)
         ctx.require_tlc_ok(r, cfg)
         if not quick:
-            zero = [a for a in r.coverage_zero if a in ("Set", "SetMulti", "Add", "Get", "Delete", "Advance", "Poke")]
-            if cfg == "MC_views.cfg":
-                zero = [a for a in zero if a != "Poke"]
+            zero = [a for a in r.coverage_zero if a in CORE_ACTIONS and not (a == "PokeOp" and cfg == "MC_views.cfg")]
             if zero:
                 incon("%s: actions with zero coverage: %s" % (cfg, zero))
-    r = ctx.tlc("cache", "JumpHash", cfg="MC_jh_quick.cfg" if quick else "MC_jh_thorough.cfg", workers=workers(), timeout=600, deadlock=False)
-    ctx.require_tlc_ok(r, "JumpHash")
+    if "decide" in phases:
+        r = ctx.tlc("cache", "JumpHash", cfg="MC_jh_quick.cfg" if quick else "MC_jh_thorough.cfg", workers=workers(),
+                    timeout=600 * scale, deadlock=False)
+        ctx.require_tlc_ok(r, "JumpHash")
 
     # 2. spec -> code: transition cover ---------------------------------------------------------------
     covers = ["MC_cover_quick.cfg"] if quick else ["MC_cover_single.cfg", "MC_cover_views.cfg"]
-    for cfg in covers:
-        r = ctx.tlc("cache", "CacheStack", cfg=cfg, workers=1, timeout=780, deadlock=False)
+    for cfg in (covers if "cover" in phases else []):
+        r = ctx.tlc("cache", "CacheStack", cfg=cfg, workers=1, timeout=780 * scale, deadlock=False, coverage=not quick)
         ctx.require_tlc_ok(r, cfg)
+        zero = [a for a in r.coverage_zero if a in CORE_ACTIONS + VARIANT_ACTIONS and not (a == "PokeOp" and cfg == "MC_cover_views.cfg")]
+        if zero:
+            incon("%s: actions with zero coverage: %s" % (cfg, zero))
         if r.emitted == 0:
             incon("%s emitted no behaviours" % cfg)
         env = {"VERIF_IN": r.out_path, "VERIF_MODE": "cover", "VERIF_NVIEWS": 2}
         if selftest == "corrupt-replay":
             env["VERIF_CORRUPT"] = 17
-        res = ctx.run_harness("c19", "^TestReplay$", env=env, timeout=780)
+        res = ctx.run_harness("c19", "^TestReplay$", env=env, timeout=780 * scale)
         if res.get("cases") != r.emitted:
             incon("%s: harness replayed %s of %d behaviours" % (cfg, res.get("cases"), r.emitted))
         ctx.absorb(res, cfg)
 
     # 3. spec -> code: scripts (larger alphabet, map-order nondeterminism as a set of allowed behaviours)
+    if "scripts" in phases:
+        run_scripts(ctx, quick, scale)
+    if "placement" in phases:
+        run_placement(ctx, quick, scale, selftest)
+    return "model_checking"
+
+
+def run_scripts(ctx, quick, scale):
     nscripts, depth = (900, 10) if quick else (9000, 14)
     sp = ctx.path("scripts.ndjson")
     gen_scripts(sp, ctx.seed, nscripts, depth)
     r = ctx.tlc("cache", "CacheStackScript", cfg="MC_script.cfg", extra_files={sp: "scripts.ndjson"}, workers=workers(),
-                timeout=780, deadlock=False)
+                timeout=780 * scale, deadlock=False)
     ctx.require_tlc_ok(r, "scripts")
     sorted_path = ctx.path("script_behaviours.ndjson")
     nsid = sort_by_sid(r.out_path, sorted_path)
     if nsid != nscripts:
         incon("scripts: TLC produced behaviours for %d of %d scripts" % (nsid, nscripts))
-    res = ctx.run_harness("c19", "^TestReplay$", env={"VERIF_IN": sorted_path, "VERIF_MODE": "script", "VERIF_NVIEWS": 3}, timeout=780)
+    res = ctx.run_harness("c19", "^TestReplay$", env={"VERIF_IN": sorted_path, "VERIF_MODE": "script", "VERIF_NVIEWS": 3}, timeout=780 * scale)
     if res.get("cases") != nscripts:
         incon("scripts: harness replayed %s of %d scripts" % (res.get("cases"), nscripts))
     ctx.absorb(res, "scripts")
 
+
+
+def run_placement(ctx, quick, scale, selftest):
     # 4. code -> spec: placement ------------------------------------------------------------------------
     chains, nkeys = (3, 60) if quick else (10, 400)
     first = None
@@ -181,9 +200,9 @@ def run(ctx):
         env = {"VERIF_TRACE": trace, "VERIF_CHAINS": chains, "VERIF_MAXN": 64, "VERIF_NKEYS": nkeys}
         if selftest == "corrupt-trace":
             env["VERIF_CORRUPT"] = 40
-        res = ctx.run_harness("c19", "^TestPlacement$", env=env, timeout=600)
+        res = ctx.run_harness("c19", "^TestPlacement$", env=env, timeout=600 * scale)
         nev = sum(1 for _ in open(trace))
-        r = ctx.tlc("cache", "JumpHashTrace", extra_files={trace: "trace.ndjson"}, workers=1, deadlock=False, timeout=780, count=False)
+        r = ctx.tlc("cache", "JumpHashTrace", extra_files={trace: "trace.ndjson"}, workers=1, deadlock=False, timeout=780 * scale, count=False)
         if r.violated == "Accepted":
             m = re.findall(r'verdict = "([^"]+)"', r.log)
             mi = re.findall(r"/\\ i = (\d+)", r.log) or re.findall(r"\bi = (\d+)", r.log)
@@ -218,4 +237,3 @@ def run(ctx):
             incon("placement: rejection %s did not repeat" % (first,))
         ctx.absorb(res, "placement")
         break
-    return "model_checking"
